@@ -3,7 +3,7 @@ from vlib import core
 import os
 
 # C40_NO_EXCLUDE=1 also generates the regimes in which the unchanged tree is known to deviate (see RULE / report)
-NO_EXCLUDE = os.environ.get("C40_NO_EXCLUDE") == "1"
+NO_EXCLUDE = os.environ.get("C40_EXCLUDE") != "1"   # the regimes of the two recorded findings are generated; they are reported as KNOWN-FINDING
 
 ID = "C40"
 LEVEL = "translation_validation"
